@@ -588,8 +588,11 @@ def task_hydrogen_names(pr, repo):
 
 
 def task_bond_rule(pr, repo):
-    # which hydrogens an atom still needs is counted from its perceived bonds: the pairwise bond rule (C11) in every orientation
+    # which hydrogens an atom still needs is counted from its perceived bonds: the pairwise bond rule (C11) in every orientation,
+    # supplied hydrogens included, over ALL atoms of a conformation (ATOM and HETATM records alike)
     C11.task_check_distance(pr, repo)
+    C11.task_boxes_pair(pr, repo, 'H', 'C', True, (0,))
+    C11.task_plumbing(pr, repo)
 
 
 def task_tetrahedral_two(pr, repo):
